@@ -56,3 +56,18 @@ Proof.
   destruct (tok_source m t); [cbn [option_map]; rewrite strip1_spec|]; reflexivity.
 Qed.
 Print Assumptions C09_stripped_source.
+
+(* with ANY prefix list: sources are the stripped images of a duplicate-free list (two rewritten sources coincide only when
+   stripping made them equal), names are duplicate-free, every entry is referenced, and contents stay attached to the source
+   they belonged to before stripping -- the first content in token order -- exactly when contents are kept *)
+From SM Require Import Proofs.RewriteStripped.
+Theorem C09_general : forall m o m' mp,
+  rewrite_with_mapping m o = Ok (m', mp) -> zlen (sm_tokens m) < NONE ->
+  exists pre,
+    NoDup pre /\ sm_sources m' = map (strip1 (eff_prefixes m o)) pre
+    /\ NoDup (sm_names m')
+    /\ refd (zlen (sm_sources m')) (map t_src (sm_tokens m')) /\ refd (zlen (sm_names m')) (map t_name (sm_tokens m'))
+    /\ (ro_contents o = true -> forall j s, znth_opt pre j = Some s -> get_source_contents m' j = first_content m (sm_tokens m) s)
+    /\ (ro_contents o = false -> forall j, get_source_contents m' j = None).
+Proof. exact RewriteStripped.C09_general. Qed.
+Print Assumptions C09_general.
